@@ -17,7 +17,7 @@ from checks.common.history import Failure, explore
 PROP = 'C18'
 LEVEL = 'exploration'
 SHARDS = {'quick': 4, 'thorough': 16}
-BUDGET_S = {'quick': 45, 'thorough': 420}
+BUDGET_S = {'quick': 150, 'thorough': 420}
 RULE = ('seeded histories of appending writes, read(n), read(), readline, readlines, iteration steps, seek to '
         'any position inside the data, tell, len, getvalue in every interleaving, applied to io.BytesIO/StringIO '
         'and to 7 spooled copies with max_size 1, 2, half, len-1, len, len+1 and 10**6 (so the same history runs '
